@@ -177,8 +177,11 @@ def switch_info(body, bb):
         return None
     pl = op_place(t["d"])
     targets = {int(v): b for v, b in t["targets"]}
-    if pl is None or pl["p"]:
+    if pl is None:
         return {"kind": "other", "targets": targets, "otherwise": t["otherwise"]}
+    if pl["p"]:
+        # switch directly on a stored value (e.g. one byte of a matched slice)
+        return {"kind": "value", "place": pl, "targets": targets, "otherwise": t["otherwise"]}
     neg = False
     l = pl["l"]
     for _ in range(8):
@@ -195,7 +198,10 @@ def switch_info(body, bb):
             return {"kind": "bool", "call": c, "neg": neg, "true": tb, "false": fb}
         rv = payload["rv"]
         if rv["r"] == "discr":
-            return {"kind": "discr", "place": rv["p"], "targets": targets, "otherwise": t["otherwise"], "bb": dbb}
+            vals = [int(v) for v in rv.get("vals", [])]
+            dead = bool(vals) and set(vals) <= set(targets.keys())
+            return {"kind": "discr", "place": rv["p"], "targets": targets, "otherwise": t["otherwise"], "bb": dbb,
+                    "enum": rv.get("enum"), "vals": vals, "otherwise_dead": dead}
         if rv["r"] == "un" and rv["op"] == "Not":
             neg = not neg
             p2 = op_place(rv["a"])
